@@ -494,7 +494,8 @@ class StubsStringGenerator:
         func_params = self._create_parameter_string(
             parameters=function.parameters,
             indentations=indentations,
-            is_instance_method=not is_static and is_method,
+            # (the implicit receiver of "__new__" is left out too, although such a method counts as static)
+            is_instance_method=is_method,
         )
 
         # TypeVar
